@@ -331,6 +331,7 @@ func (x *Exec) runOp(p *Process, op *OpSpec, res *OpResult) {
 		up.DryRun = op.DryRun
 		up.DryRunOption = op.DryRunOption
 		up.SkipSchemaValidation = op.SkipSchema
+		up.SkipCRDs = op.SkipCRDs
 		up.Labels = op.Labels
 		up.CleanupOnFail = op.CleanupOnFail
 		up.MaxHistory = op.MaxHistory
@@ -617,6 +618,23 @@ func corruptBody(body, mode string, pos int) string {
 		return base64.StdEncoding.EncodeToString([]byte(`{"name":"x","version":1}`))
 	case "emptydata":
 		return ""
+	case "gz-header", "gz-truncate", "gz-bitflip", "gz-crc":
+		// damage the inflated-side bytes and keep the base64 wrapping intact
+		raw, err := base64.StdEncoding.DecodeString(body)
+		if err != nil || len(raw) < 12 {
+			return body
+		}
+		switch mode {
+		case "gz-header":
+			raw = raw[:4+pos%7] // magic intact, header cut short
+		case "gz-truncate":
+			raw = raw[:10+pos%(len(raw)-10)]
+		case "gz-bitflip":
+			raw[pos%len(raw)] ^= 1 << (uint(pos) % 8)
+		case "gz-crc":
+			raw[len(raw)-5] ^= 0xff
+		}
+		return base64.StdEncoding.EncodeToString(raw)
 	}
 	return string(b)
 }
@@ -647,6 +665,8 @@ func Execute(t *testing.T, plan *Plan, oracle func(x *Exec, so *StepObs), final 
 		x.Sim = NewSim(plan.Schedule, plan.Policy)
 		x.Sim.KeepEv = keepEvents
 		x.Sim.coRelease = plan.CoRelease
+		x.Sim.OobHook = x.applyOob
+		x.Sim.OwnedFn = func(o *Obj) bool { return ownedBy(o, plan.Release, plan.Namespace) }
 		x.Sim.StallDur = time.Duration(plan.ClientTOs)*time.Second - time.Second
 		if x.Sim.StallDur <= 0 {
 			x.Sim.StallDur = 29 * time.Second
